@@ -100,13 +100,20 @@ def load_graph(path):
     return nodes, edges, inits
 
 
+class BrokenSerializer(Exception):
+    """msg_ser (part of the subject of C17) raised or did not return bytes"""
+
+
 def real_stream(p2p, script):
     """The byte stream the model's script stands for, with the REAL checksum (MC_Frame!Bytes, mirrored)."""
     out = b""
     for i, m in enumerate(script, 1):
         pay = bytes((16 * i + j) % 256 for j in range(1, m["a"] + 1))
         magic = OTHER_MAGICS[0] if m["f"] == "magic" else p2p.MAGIC_START_BYTES
-        b = bytearray(p2p.msg_ser(magic, b"ping", pay))
+        ser = p2p.msg_ser(magic, b"ping", pay)
+        if not isinstance(ser, (bytes, bytearray)):
+            raise BrokenSerializer(f"msg_ser returned {type(ser).__name__}")
+        b = bytearray(ser)
         if m["f"] == "cmd":
             b[7] ^= 1
         elif m["f"] == "cksum":
@@ -233,7 +240,12 @@ def _stage_b(ctx, dot):
             continue
         path = prefix(u) + [(v, lab)] + completion(v)
         script, chunks, calls = _path_expectation(nodes, path)
-        res = replay_schedule(ctx, p2p, script, chunks, calls)
+        try:
+            res = replay_schedule(ctx, p2p, script, chunks, calls)
+        except Exception as ex:  # noqa - the real serialiser cannot even build the model's stream
+            ctx.violation("msg-ser-unusable", {"stage": "B", "script": script, "exc": type(ex).__name__, "detail": str(ex)[:200]})
+            stats["violation"] += 1
+            break
         stats[res] += 1
         su = nodes[u]
         sig = (su["phase"], su["got"], nodes[v]["cursor"] - su["cursor"], lab, script[min(su["calls"], len(script)) - 1]["f"])
